@@ -12,6 +12,9 @@ mod tests_block_ordering;
 mod tests_breaking_changes;
 
 pub(crate) mod vote_extension;
+#[cfg(all(test, feature = "verif"))]
+#[path = "/verif/harness/sequencer_app/mod.rs"]
+mod verif_harness;
 
 use std::{
     collections::HashMap,
